@@ -495,10 +495,17 @@ func (p *Posix) DeleteBucket(_ context.Context, bucket string) error {
 		return err
 	}
 
-	// Remove the bucket
-	err = os.RemoveAll(bucket)
-	if err != nil {
-		return fmt.Errorf("remove bucket: %w", err)
+	// What is kept for the bucket outside its directory goes first and the
+	// directory last: the directory is what reserves the name, and once it
+	// is gone a bucket created under that name must not lose its versions
+	// or settings to the tail of this deletion.
+
+	// Remove the bucket from versioning directory
+	if p.versioningEnabled() {
+		err = os.RemoveAll(filepath.Join(p.versioningDir, bucket))
+		if err != nil && !errors.Is(err, fs.ErrNotExist) {
+			return fmt.Errorf("remove bucket version: %w", err)
+		}
 	}
 	// metadata stores that keep attributes outside the bucket directory
 	// would hand the bucket's settings (policy, tags, versioning, lock
@@ -507,12 +514,10 @@ func (p *Posix) DeleteBucket(_ context.Context, bucket string) error {
 	if err != nil {
 		return fmt.Errorf("remove bucket attributes: %w", err)
 	}
-	// Remove the bucket from versioning directory
-	if p.versioningEnabled() {
-		err = os.RemoveAll(filepath.Join(p.versioningDir, bucket))
-		if err != nil && !errors.Is(err, fs.ErrNotExist) {
-			return fmt.Errorf("remove bucket version: %w", err)
-		}
+	// Remove the bucket
+	err = os.RemoveAll(bucket)
+	if err != nil {
+		return fmt.Errorf("remove bucket: %w", err)
 	}
 
 	return nil
